@@ -213,4 +213,463 @@ theorem read_addOctets_nil (b : Bytes) (hb : b.length < 2^32) :
     read tOCT (addOctets b) = some (b, []) :=
   read_addASN1_nil tOCT b (by decide) hb
 
+/-! ### INTEGER -/
+
+theorem natBytesAux_spec (f : Nat) : ∀ (n : Nat) (acc : Bytes), n ≤ f →
+    ∃ l, natBytesAux f n acc = l ++ acc ∧ beVal l = n ∧ (∀ b tl, l = b :: tl → b ≠ 0) := by
+  induction f with
+  | zero =>
+    intro n acc h
+    exact ⟨[], by simp [natBytesAux], by simp [beVal]; omega, by intro b tl h; cases h⟩
+  | succ f ih =>
+    intro n acc h
+    by_cases hn : n = 0
+    · subst hn
+      exact ⟨[], by simp [natBytesAux], by simp [beVal], by intro b tl h; cases h⟩
+    · obtain ⟨l, hl, hv, hh⟩ := ih (n / 256) ((n % 256).toUInt8 :: acc) (by omega)
+      have hm : (n % 256).toUInt8.toNat = n % 256 := toUInt8_toNat_of_lt _ (Nat.mod_lt n (by decide))
+      refine ⟨l ++ [(n % 256).toUInt8], ?_, ?_, ?_⟩
+      · simp [natBytesAux, hn, hl]
+      · rw [beVal_append, hv]; simp [beVal, hm]; omega
+      · intro b tl hbt
+        cases l with
+        | nil =>
+          simp at hbt; obtain ⟨rfl, _⟩ := hbt
+          have h0 : n / 256 = 0 := by simpa [beVal] using hv.symm
+          intro hz
+          have := congrArg UInt8.toNat hz
+          rw [hm] at this
+          simp at this; omega
+        | cons x xs =>
+          simp at hbt; exact hbt.1 ▸ hh x xs rfl
+
+/-- `natBytes n` is a big-endian representation of `n` … -/
+theorem beVal_natBytes (n : Nat) : beVal (natBytes n) = n := by
+  unfold natBytes
+  split
+  · subst_vars; simp [beVal]
+  · obtain ⟨l, hl, hv, _⟩ := natBytesAux_spec (n + 1) n [] (by omega)
+    rw [hl]; simpa using hv
+
+theorem natBytes_ne_nil (n : Nat) : natBytes n ≠ [] := by
+  unfold natBytes
+  split
+  · simp
+  · rename_i hn
+    obtain ⟨l, hl, hv, _⟩ := natBytesAux_spec (n + 1) n [] (by omega)
+    rw [hl]; intro h
+    simp at h; subst h; simp [beVal] at hv; omega
+
+theorem natBytes_zero : natBytes 0 = [0] := rfl
+
+/-- … and the minimal one: no leading zero byte unless `n = 0` (where it is the single byte 0) -/
+theorem natBytes_head_ne_zero (n : Nat) (hn : n ≠ 0) (b : UInt8) (tl : Bytes)
+    (h : natBytes n = b :: tl) : b ≠ 0 := by
+  unfold natBytes at h
+  rw [if_neg hn] at h
+  obtain ⟨l, hl, _, hh⟩ := natBytesAux_spec (n + 1) n [] (by omega)
+  rw [hl] at h; simp at h
+  exact hh b tl h
+
+/-- a leading byte `b` bounds the value from below -/
+theorem beVal_cons_ge (b : UInt8) (tl : Bytes) : b.toNat * 256^tl.length ≤ beVal (b :: tl) := by
+  simp [beVal]
+
+theorem natBytes_length_le (n k : Nat) (hk : 0 < k) (h : n < 256^k) : (natBytes n).length ≤ k := by
+  by_cases hn : n = 0
+  · subst hn; simp [natBytes_zero]; omega
+  · cases hb : natBytes n with
+    | nil => simp; 
+    | cons b tl =>
+      have hb0 := natBytes_head_ne_zero n hn b tl hb
+      have hge := beVal_cons_ge b tl
+      rw [← hb, beVal_natBytes] at hge
+      have hb1 : 1 ≤ b.toNat := by
+        rcases Nat.eq_zero_or_pos b.toNat with h0 | h0
+        · exact absurd (UInt8.toNat_inj.mp (by simpa using h0)) hb0
+        · exact h0
+      have h1 : 256^tl.length ≤ n := Nat.le_trans (Nat.le_mul_of_pos_left _ hb1) hge
+      have h2 : 256^tl.length < 256^k := Nat.lt_of_le_of_lt h1 h
+      have h3 : tl.length < k := (Nat.pow_lt_pow_iff_right (by decide)).mp h2
+      simp; omega
+
+/-- content octets written by `addUInt` -/
+def uintBody (n : Nat) : Bytes :=
+  if ((natBytes n).headD 0).toNat ≥ 128 then 0 :: natBytes n else natBytes n
+
+theorem addUInt_eq (n : Nat) : addUInt n = addASN1 tINT (uintBody n) := rfl
+
+theorem uintBody_length_le (n : Nat) : (uintBody n).length ≤ (natBytes n).length + 1 := by
+  unfold uintBody; split <;> simp
+
+theorem uintBody_of_ge {n : Nat} {b0 : UInt8} {tl : Bytes} (hb : natBytes n = b0 :: tl)
+    (h : b0.toNat ≥ 128) : uintBody n = 0 :: b0 :: tl := by
+  unfold uintBody; rw [hb]; exact if_pos h
+
+theorem uintBody_of_lt {n : Nat} {b0 : UInt8} {tl : Bytes} (hb : natBytes n = b0 :: tl)
+    (h : ¬ b0.toNat ≥ 128) : uintBody n = b0 :: tl := by
+  unfold uintBody; rw [hb]; exact if_neg h
+
+theorem checkInt_uintBody (n : Nat) : checkInt (uintBody n) = true := by
+  cases hb : natBytes n with
+  | nil => exact absurd hb (natBytes_ne_nil n)
+  | cons b0 tl =>
+    by_cases h128 : b0.toNat ≥ 128
+    · rw [uintBody_of_ge hb h128]
+      simp [checkInt]; omega
+    · rw [uintBody_of_lt hb h128]
+      cases tl with
+      | nil => rfl
+      | cons b1 tl' =>
+        have hn : n ≠ 0 := by
+          intro h0; subst h0; rw [natBytes_zero] at hb; simp at hb
+        have hb0 := natBytes_head_ne_zero n hn b0 _ hb
+        have hff : b0 ≠ 255 := by intro h; subst h; simp at h128
+        simp [checkInt, hb0, hff]
+
+theorem signedVal_cons_lt (b : UInt8) (tl : Bytes) (h : ¬ b.toNat ≥ 128) :
+    signedVal (b :: tl) = (beVal (b :: tl) : Int) := by
+  unfold signedVal; exact if_neg h
+
+theorem signedVal_uintBody (n : Nat) : signedVal (uintBody n) = (n : Int) := by
+  cases hb : natBytes n with
+  | nil => exact absurd hb (natBytes_ne_nil n)
+  | cons b0 tl =>
+    have hv : beVal (b0 :: tl) = n := by rw [← hb, beVal_natBytes]
+    by_cases h128 : b0.toNat ≥ 128
+    · rw [uintBody_of_ge hb h128]
+      have e : beVal (0 :: b0 :: tl) = beVal (b0 :: tl) := by simp [beVal]
+      rw [signedVal_cons_lt _ _ (by decide), e, hv]
+    · rw [uintBody_of_lt hb h128, signedVal_cons_lt _ _ h128, hv]
+
+/-- `ReadASN1Integer(&big.Int)` inverts the INTEGER builder (hypothesis on the content octets) -/
+theorem readBigInt_addUInt_of_body (n : Nat) (rest : Bytes) (h : (uintBody n).length < 2^32) :
+    readBigInt (addUInt n ++ rest) = some ((n : Int), rest) := by
+  rw [addUInt_eq]
+  simp [readBigInt, read_addASN1 tINT (uintBody n) rest (by decide) h,
+    checkInt_uintBody, signedVal_uintBody]
+
+theorem readBigInt_addUInt_of_body_nil (n : Nat) (h : (uintBody n).length < 2^32) :
+    readBigInt (addUInt n) = some ((n : Int), []) := by
+  simpa using readBigInt_addUInt_of_body n [] h
+
+/-- `ReadASN1Integer(&big.Int)` inverts the INTEGER builder for every practical value -/
+theorem readBigInt_addUInt (n : Nat) (rest : Bytes) (h : (natBytes n).length + 1 < 2^32) :
+    readBigInt (addUInt n ++ rest) = some ((n : Int), rest) := by
+  have hl := uintBody_length_le n
+  exact readBigInt_addUInt_of_body n rest (by omega)
+
+theorem readBigInt_addUInt_nil (n : Nat) (h : (natBytes n).length + 1 < 2^32) :
+    readBigInt (addUInt n) = some ((n : Int), []) := by
+  simpa using readBigInt_addUInt n [] h
+
+theorem uintBody_length_le_8 (n : Nat) (h : n < 2^63) : (uintBody n).length ≤ 8 := by
+  have h8 : (natBytes n).length ≤ 8 := natBytes_length_le n 8 (by decide) (by
+    have : (2:Nat)^63 < 256^8 := by decide
+    omega)
+  cases hb : natBytes n with
+  | nil => exact absurd hb (natBytes_ne_nil n)
+  | cons b0 tl =>
+    rw [hb] at h8
+    by_cases h128 : b0.toNat ≥ 128
+    · rw [uintBody_of_ge hb h128]
+      simp at h8 ⊢
+      -- 8 bytes with the top bit set would be at least 2^63
+      by_cases h7 : tl.length = 7
+      · have hge := beVal_cons_ge b0 tl
+        rw [← hb, beVal_natBytes, h7] at hge
+        have : (256:Nat)^7 = 2^56 := by decide
+        rw [this] at hge
+        have : 128 * 2^56 ≤ b0.toNat * 2^56 := Nat.mul_le_mul_right _ h128
+        omega
+      · omega
+    · rw [uintBody_of_lt hb h128]; exact h8
+
+/-- `ReadASN1Integer(&int64)` inverts the INTEGER builder below 2^63 -/
+theorem readInt64_addUInt (n : Nat) (rest : Bytes) (h : n < 2^63) :
+    readInt64 (addUInt n ++ rest) = some ((n : Int), rest) := by
+  have hl := uintBody_length_le_8 n h
+  rw [addUInt_eq]
+  have h8 : ¬ (uintBody n).length > 8 := by omega
+  simp [readInt64, read_addASN1 tINT (uintBody n) rest (by decide) (by omega),
+    checkInt_uintBody, signedVal_uintBody, h8]
+
+theorem readInt64_addUInt_nil (n : Nat) (h : n < 2^63) :
+    readInt64 (addUInt n) = some ((n : Int), []) := by
+  simpa using readInt64_addUInt n [] h
+
+/-! ### base-128 arcs -/
+
+/-- value of a run of base-128 digits continuing from `ret` (what `readBase128Int` accumulates) -/
+def val128 (ret : Nat) (l : Bytes) : Nat := l.foldl (fun r b => r * 128 + b.toNat % 128) ret
+
+theorem val128_cons (ret : Nat) (b : UInt8) (l : Bytes) :
+    val128 ret (b :: l) = val128 (ret * 128 + b.toNat % 128) l := rfl
+
+theorem val128_append_singleton (ret : Nat) (l : Bytes) (b : UInt8) :
+    val128 ret (l ++ [b]) = val128 ret l * 128 + b.toNat % 128 := by
+  simp [val128, List.foldl_append]
+
+theorem le_val128 (l : Bytes) : ∀ ret, ret ≤ val128 ret l := by
+  induction l with
+  | nil => intro ret; exact Nat.le_refl _
+  | cons b l ih =>
+    intro ret
+    rw [val128_cons]
+    exact Nat.le_trans (by omega) (ih _)
+
+/-- the continuation bytes written by `base128Aux`: all have the top bit set, they encode `m`
+    minimally (no leading 0x80) and take at most `k` bytes when `m < 128^k` -/
+theorem base128Aux_spec (f : Nat) : ∀ (m : Nat) (acc : Bytes), m ≤ f →
+    ∃ l, base128Aux f m acc = l ++ acc ∧ (∀ b ∈ l, 128 ≤ b.toNat) ∧ val128 0 l = m ∧
+      (∀ b tl, l = b :: tl → b ≠ 0x80) ∧ (∀ k, m < 128^k → l.length ≤ k) := by
+  induction f with
+  | zero =>
+    intro m acc h
+    exact ⟨[], by simp [base128Aux], by simp, (by simp [val128]; omega), (by intro b tl h; cases h),
+      by simp⟩
+  | succ f ih =>
+    intro m acc h
+    by_cases hm : m = 0
+    · subst hm
+      exact ⟨[], by simp [base128Aux], by simp, by simp [val128], (by intro b tl h; cases h), by simp⟩
+    · obtain ⟨x, hxe⟩ : ∃ x, x = (128 + m % 128).toUInt8 := ⟨_, rfl⟩
+      have hx : x.toNat = 128 + m % 128 := by rw [hxe]; exact toUInt8_toNat_of_lt _ (by omega)
+      obtain ⟨l, hl, hall, hv, hh, hlen⟩ := ih (m / 128) (x :: acc) (by omega)
+      refine ⟨l ++ [x], ?_, ?_, ?_, ?_, ?_⟩
+      · simp only [base128Aux, if_neg hm]
+        rw [← hxe, hl]; simp
+      · intro b hb
+        rcases List.mem_append.mp hb with hb | hb
+        · exact hall b hb
+        · simp at hb; subst hb; rw [hx]; omega
+      · rw [val128_append_singleton, hv, hx]; omega
+      · intro b tl hbt
+        cases l with
+        | nil =>
+          simp at hbt; obtain ⟨rfl, _⟩ := hbt
+          have h0 : m / 128 = 0 := by simpa [val128] using hv.symm
+          intro hz
+          have := congrArg UInt8.toNat hz
+          rw [hx] at this
+          simp at this; omega
+        | cons y ys =>
+          simp at hbt; exact hbt.1 ▸ hh y ys rfl
+      · intro k hk
+        cases k with
+        | zero => simp at hk; omega
+        | succ k =>
+          have : m / 128 < 128^k := by
+            rw [Nat.pow_succ] at hk
+            exact Nat.div_lt_of_lt_mul (by rw [Nat.mul_comm]; exact hk)
+          have := hlen k this
+          simp; omega
+
+/-- the reader on continuation bytes followed by a final byte -/
+theorem readBase128Aux_run (last : UInt8) (rest : Bytes) (hlast : last.toNat < 128) :
+    ∀ (l : Bytes) (i ret : Nat), (∀ b ∈ l, 128 ≤ b.toNat) → i + l.length ≤ 4 →
+      val128 ret l < 2^24 → (i = 0 → ∀ b tl, l = b :: tl → b ≠ 0x80) →
+      readBase128Aux i ret (l ++ last :: rest) = some (val128 ret l * 128 + last.toNat, rest) := by
+  intro l
+  induction l with
+  | nil =>
+    intro i ret _ hi hv _
+    have h5 : (i == 5) = false := by simp; omega
+    have hr : ¬ ret ≥ 2^24 := by simp [val128] at hv; omega
+    have hl : (last == 0x80) = false := by
+      simp; intro h; subst h; simp at hlast
+    have hmod : last.toNat % 128 = last.toNat := Nat.mod_eq_of_lt hlast
+    simp only [List.nil_append, readBase128Aux, h5, hl, Bool.and_false, hmod]
+    simp [hr, hlast, val128]
+  | cons b l ih =>
+    intro i ret hall hi hv hhead
+    have hb : 128 ≤ b.toNat := hall b (by simp)
+    have h5 : (i == 5) = false := by simp; simp at hi; omega
+    have hle := le_val128 (b :: l) ret
+    have hr : ¬ ret ≥ 2^24 := by omega
+    have hz : (i == 0 && b == 0x80) = false := by
+      by_cases hi0 : i = 0
+      · have := hhead hi0 b l rfl
+        simp [this]
+      · simp [hi0]
+    have hnb : ¬ b.toNat < 128 := by omega
+    simp only [List.cons_append, readBase128Aux, h5, hz]
+    simp only [hr, hnb, if_false, Bool.false_eq_true]
+    rw [ih (i+1) (ret * 128 + b.toNat % 128) (fun x hx => hall x (by simp [hx]))
+      (by simp at hi; omega) (by rw [val128_cons] at hv; exact hv) (by intro h; omega)]
+    rw [val128_cons]
+
+theorem base128_ne_nil (n : Nat) : base128 n ≠ [] := by
+  unfold base128
+  obtain ⟨l, hl, _⟩ := base128Aux_spec (n + 1) (n / 128) [(n % 128).toUInt8] (by omega)
+  rw [hl]; simp
+
+/-- an arc below 2^31 takes at most 5 bytes -/
+theorem base128_length_le (n : Nat) (h : n < 2^31) : (base128 n).length ≤ 5 := by
+  unfold base128
+  obtain ⟨l, hl, _, _, _, hlen⟩ := base128Aux_spec (n + 1) (n / 128) [(n % 128).toUInt8] (by omega)
+  have : (128:Nat)^4 = 2^28 := by decide
+  have := hlen 4 (by omega)
+  rw [hl]; simp; omega
+
+/-- `readBase128Int` inverts the builder's base-128 arc for every arc below 2^31 -/
+theorem readBase128_base128 (n : Nat) (rest : Bytes) (h : n < 2^31) :
+    readBase128 (base128 n ++ rest) = some (n, rest) := by
+  unfold base128 readBase128
+  obtain ⟨l, hl, hall, hv, hh, hlen⟩ :=
+    base128Aux_spec (n + 1) (n / 128) [(n % 128).toUInt8] (by omega)
+  have hx : (n % 128).toUInt8.toNat = n % 128 := toUInt8_toNat_of_lt _ (by omega)
+  have h4 : l.length ≤ 4 := hlen 4 (by
+    have : (128:Nat)^4 = 2^28 := by decide
+    omega)
+  rw [hl, List.append_assoc, List.singleton_append,
+    readBase128Aux_run _ rest (by rw [hx]; omega) l 0 0 hall (by omega) (by rw [hv]; omega)
+      (fun _ => hh)]
+  rw [hv, hx]
+  congr 2; omega
+
+theorem readBase128_base128_nil (n : Nat) (h : n < 2^31) :
+    readBase128 (base128 n) = some (n, []) := by
+  simpa using readBase128_base128 n [] h
+
+/-! ### OBJECT IDENTIFIER -/
+
+theorem oidRest_flatten : ∀ (arcs : List Nat) (fuel : Nat) (acc : List Nat),
+    (∀ x ∈ arcs, x < 2^31) → (arcs.map base128).flatten.length ≤ fuel →
+    oidRest fuel (arcs.map base128).flatten acc = some (acc.reverse ++ arcs) := by
+  intro arcs
+  induction arcs with
+  | nil => intro fuel acc _ _; cases fuel <;> simp [oidRest]
+  | cons x xs ih =>
+    intro fuel acc hall hlen
+    have hx : x < 2^31 := hall x (by simp)
+    have hne := base128_ne_nil x
+    have hpos : 1 ≤ (base128 x).length := by
+      cases hb : base128 x with
+      | nil => exact absurd hb hne
+      | cons _ _ => simp
+    simp only [List.map_cons, List.flatten_cons, List.length_append] at hlen ⊢
+    cases fuel with
+    | zero => omega
+    | succ f =>
+      have hemp : (base128 x ++ (xs.map base128).flatten).isEmpty = false := by
+        cases hb : base128 x with
+        | nil => exact absurd hb hne
+        | cons _ _ => rfl
+      simp only [oidRest, hemp, readBase128_base128 x _ hx]
+      rw [ih f (x :: acc) (fun y hy => hall y (by simp [hy])) (by omega)]
+      simp
+
+/-- decidable side condition of the OID round trip: valid first two arcs, `40·a+b` and every
+    further arc below 2^31 (the reader's limit) -/
+def oidArcsOk : List Nat → Bool
+  | a :: b :: r => validOID (a :: b :: r) && decide (40 * a + b < 2^31) && r.all (fun x => decide (x < 2^31))
+  | _ => false
+
+/-- content octets of an OBJECT IDENTIFIER -/
+def oidBody (a b : Nat) (r : List Nat) : Bytes := base128 (40 * a + b) ++ (r.map base128).flatten
+
+theorem addOID_eq (a b : Nat) (r : List Nat) (hv : validOID (a :: b :: r) = true) :
+    addOID (a :: b :: r) = some (addASN1 tOID (oidBody a b r)) := by
+  simp [addOID, hv, oidBody]
+
+/-- `ReadASN1ObjectIdentifier` inverts `AddASN1ObjectIdentifier` -/
+theorem readOID_addOID (a b : Nat) (r : List Nat) (rest : Bytes)
+    (hv : validOID (a :: b :: r) = true) (hab : 40 * a + b < 2^31) (hr : ∀ x ∈ r, x < 2^31)
+    (hlen : (oidBody a b r).length < 2^32) :
+    readOID ((addOID (a :: b :: r)).getD [] ++ rest) = some (a :: b :: r, rest) := by
+  rw [addOID_eq a b r hv]
+  have hne : (oidBody a b r).isEmpty = false := by
+    unfold oidBody
+    cases hb : base128 (40 * a + b) with
+    | nil => exact absurd hb (base128_ne_nil _)
+    | cons _ _ => rfl
+  simp only [Option.getD_some, readOID, read_addASN1 tOID _ rest (by decide) hlen, hne]
+  unfold oidBody
+  simp only [readBase128_base128 _ _ hab]
+  rw [oidRest_flatten r _ [] hr (Nat.le_refl _)]
+  simp only [validOID, Bool.and_eq_true, decide_eq_true_eq] at hv
+  obtain ⟨ha, hb⟩ := hv
+  by_cases h80 : 40 * a + b < 80
+  · have h1 : (40 * a + b) / 40 = a := by omega
+    have h2 : (40 * a + b) % 40 = b := by omega
+    simp [h80, h1, h2]
+  · have h1 : a = 2 := by omega
+    subst h1
+    have h2 : 40 * 2 + b - 80 = b := by omega
+    simp [h80, h2]
+
+/-- packaged form for an arbitrary arc list -/
+theorem readOID_addOID_of_ok (o : List Nat) (enc rest : Bytes) (hok : oidArcsOk o = true)
+    (henc : addOID o = some enc) (hlen : enc.length < 2^32) :
+    readOID (enc ++ rest) = some (o, rest) := by
+  match o, hok with
+  | a :: b :: r, hok =>
+    simp only [oidArcsOk, Bool.and_eq_true, decide_eq_true_eq, List.all_eq_true] at hok
+    obtain ⟨⟨hv, hab⟩, hr⟩ := hok
+    have e := addOID_eq a b r hv
+    rw [e] at henc
+    have henc' : addASN1 tOID (oidBody a b r) = enc := by simpa using henc
+    have hl : (oidBody a b r).length < 2^32 := addASN1_body_lt (by rw [henc']; exact hlen)
+    have := readOID_addOID a b r rest hv hab hr hl
+    rw [e] at this
+    simpa [henc'] using this
+
+theorem validOID_of_oidArcsOk {o : List Nat} (h : oidArcsOk o = true) : validOID o = true := by
+  match o, h with
+  | a :: b :: r, h =>
+    simp only [oidArcsOk, Bool.and_eq_true] at h
+    exact h.1.1
+
+/-- a valid OID is written as one OBJECT IDENTIFIER element -/
+theorem addOID_of_valid {o : List Nat} (h : validOID o = true) :
+    ∃ body, addOID o = some (addASN1 tOID body) := by
+  match o, h with
+  | a :: b :: r, h => exact ⟨_, addOID_eq a b r h⟩
+
+/-- the same for `(addOID o).getD []` (what `BytesOrPanic` yields for a valid OID) -/
+theorem readOID_addOID_getD (o : List Nat) (rest : Bytes) (hok : oidArcsOk o = true)
+    (hlen : ((addOID o).getD []).length < 2^32) :
+    readOID ((addOID o).getD [] ++ rest) = some (o, rest) := by
+  obtain ⟨body, hb⟩ := addOID_of_valid (validOID_of_oidArcsOk hok)
+  rw [hb] at hlen ⊢
+  exact readOID_addOID_of_ok o _ rest hok hb hlen
+
+/-! ### UTCTime -/
+
+theorem zoneOk_length {z : Bytes} (h : zoneOk z = true) : z.length ≤ 5 := by
+  unfold zoneOk at h
+  split at h
+  · simp
+  · simp
+  · cases h
+
+/-- every text `ReadASN1UTCTime` accepts has at most 17 bytes -/
+theorem parseUTC_length {t c : Bytes} (h : parseUTC t = some c) : t.length ≤ 17 := by
+  unfold parseUTC at h
+  split at h
+  · split at h
+    · split at h
+      · split at h
+        · split at h
+          · rename_i hc
+            simp only [Bool.and_eq_true] at hc
+            have := zoneOk_length hc.2
+            simp only [List.length_cons]; omega
+          · cases h
+        · split at h
+          · rename_i hc
+            simp only [Bool.and_eq_true] at hc
+            have := zoneOk_length hc.2
+            simp only [List.length_cons] at this ⊢; omega
+          · cases h
+      · split at h
+        · rename_i hc
+          simp only [Bool.and_eq_true] at hc
+          have := zoneOk_length hc.2
+          simp only [List.length_cons]; omega
+        · cases h
+    · cases h
+  · cases h
+
 end GoUefi.Der
